@@ -58,6 +58,9 @@ type histRun struct {
 	deletedSeq map[string]int
 	cleanup    func()
 	prefix     string // tape-name prefix
+	lastProj   *Project
+	lastArgs   []string
+	lastIndex  bool
 }
 
 func newHistRun(c *simcheck.Ctx, sc *histScenario) (*histRun, error) {
@@ -139,7 +142,16 @@ func (h *histRun) buildNamed(name string, i int, op *opSpec, pc procCfg, hook fu
 	if op.DryNil {
 		bo.DryThenNil = 1 + op.N%2
 	}
+	if op.Reload && h.lastProj != nil && !h.lastIndex && sameArgs(h.lastArgs, bo.Args) {
+		// the builtins of the kept Project point at this world already (same histRun)
+		bo.Reuse = h.lastProj
+		h.w.ctx.St.Count("reload_instead_of_load", 1)
+	}
 	res := h.w.process(name, pc, bo, hook)
+	h.lastProj, h.lastArgs, h.lastIndex = nil, bo.Args, bo.PreferIndex
+	if res.LoadErr == nil && res.Sim.Failure == nil && !res.Sim.Crashed && !res.Sim.Stuck {
+		h.lastProj = res.Proj
+	}
 	h.w.ctx.Sim(res.Sim, simcheck.ScenarioHash(h.p), pc.Strategy)
 	return res
 }
@@ -251,6 +263,18 @@ func (h *histRun) compareFromScratch(label string, tag string) *simcheck.Violati
 		}
 	}
 	return nil
+}
+
+func sameArgs(a, b []string) bool {
+	if len(a) != len(b) {
+		return false
+	}
+	for i := range a {
+		if a[i] != b[i] {
+			return false
+		}
+	}
+	return true
 }
 
 // procFailure classifies simulator-level failures of a simulated process.
